@@ -36,6 +36,10 @@ pub struct SequenceNumber(i64);
 impl SequenceNumber {
   pub const UNKNOWN: Self = Self((u32::MAX as i64) << 32);
 
+  /// Largest SequenceNumber accepted from the network. The headroom below i64::MAX
+  /// guarantees that window arithmetic on received numbers (+1, +256, ...) cannot overflow.
+  pub const MAX_ACCEPTED: Self = Self(i64::MAX - 0x1_0000);
+
   pub fn new(value: i64) -> Self {
     Self::from(value)
   }
@@ -206,6 +210,9 @@ pub struct FragmentNumber(u32);
 
 impl FragmentNumber {
   pub const INVALID: Self = Self(0); // Valid FragmentNumbers start at 1.
+
+  /// Largest FragmentNumber accepted from the network, see SequenceNumber::MAX_ACCEPTED.
+  pub const MAX_ACCEPTED: Self = Self(u32::MAX - 0x1_0000);
 
   pub fn new(value: u32) -> Self {
     FragmentNumber(value)
